@@ -15,6 +15,11 @@ def validate_encoded(string):
       " for f: floats; for csi: signed integers; for CSI: unsigned integers)")
 
 def validate_decoded(numeric_array):
+  if not isinstance(numeric_array, gfapy.NumericArray):
+    raise gfapy.TypeError(
+      "the class {} is incompatible with the datatype\n"
+      .format(numeric_array.__class__.__name__)+
+      "(accepted classes: gfapy.NumericArray)")
   numeric_array.validate()
 
 def unsafe_encode(obj):
